@@ -308,7 +308,11 @@ def run(ctx):
               # sign): str.lower() leaves them different from the key
               K('pa\u017f\u017fword'), K('adm\u0131n_pass'),
               K('ADM\u0130N_PASS'), K('to\u212aen'),
-              K('\u017fecret'), K('pa\u017fsphrase')):
+              K('\u017fecret'), K('pa\u017fsphrase'),
+              # containers that have a sanitize key as *member*: only a
+              # string key can contain one as a substring
+              K(('password',)), K(('password', 1)), K((1, 'token')),
+              K(frozenset({'secret'})), K(b'token')):
         for v in (K('text'), K(7), K(None), K(b'bytes'),
                   # secrets embedded in every notation mask_password knows,
                   # and values made of other characters only
